@@ -48,6 +48,19 @@ pub fn long_frags() -> &'static [&'static str] {
 /// every common suffix, so the pair collides as label values, as metric names and inside longer keys alike.
 pub const FNV64_COLLISION: (&str, &str) = ("mqhmlpemtukl3g", "mjopqa3bdnatil");
 
+/// Two adjacent values (v1, v2) and their twin ("", z) that produce the same byte stream under any encoding that writes a
+/// `w`-byte length in front of each value (w = 1: lengths wrap at 256; w = 2: at 65536): v1 is exactly 256^w bytes long, so its
+/// length field reads 0 like that of the empty string, and starts with the bytes that are z's wrapped length. All bytes of the
+/// length fields are the letter 'A' (0x41), so byte order does not matter.
+pub fn length_wrap_twins(w: usize) -> ((String, String), (String, String)) {
+    let n = if w == 1 { 256usize } else { 65536 };
+    let l2 = if w == 1 { 0x41usize } else { 0x4141 };
+    let x = "x".repeat(n - w);
+    let a = "A".repeat(w);
+    let v2 = "y".repeat(l2);
+    ((format!("{}{}", a, x), v2.clone()), (String::new(), format!("{}{}{}", x, a, v2)))
+}
+
 pub const VALID_LABEL_NAMES: &[&str] = &["a", "b", "ab", "l1", "x_y", "B", "_z", "le2", "quantile_", "a0"];
 pub const CONST_LABEL_NAMES: &[&str] = &["c1", "aa", "zz", "A", "k_", "c_2"];
 pub const METRIC_NAMES: &[&str] = &["m", "a", "a_b", "ab", "a_total", "ns:x", "_u", "m1", "a_b_c", "zz9"];
